@@ -201,17 +201,35 @@ Proof.
   destruct (get_path [p] o); [apply get_path_set_other|apply get_path_remove_other]; exact H.
 Qed.
 
-(* what the stored component holds at an option path is what the fold of the store layers holds *)
-Lemma stored_option d p c sk c' f k pi :
+(* what the stored component holds at a path outside `variables` / `override` is what the fold of the store layers
+   holds after isRepeat was derived again ([comp_pre] of the fold); at an option path that is the fold itself *)
+Lemma comp_pre_dict m : exists m', comp_pre (JDict m) = JDict m'.
+Proof.
+  unfold comp_pre. destruct (get_path [WA; "repeatInterval"] (JDict m)); [cbn [set_path]|]; eexists; reflexivity.
+Qed.
+
+Lemma stored_path d p c sk c' f k pi :
   is_import c = false -> comp_stage_key c = Some sk ->
   store_comp_raw d p c = Some c' ->
   fold_override (Some (JDict [])) (store_layers d p sk c) = Some f ->
   k <> "variables" -> k <> "override" ->
+  get_path (k :: pi) c' = get_path (k :: pi) (comp_pre f).
+Proof.
+  intros Hi Hs Hc Hf K1 K2. unfold store_comp_raw, store_comp_with in Hc. rewrite Hi, Hs, Hf in Hc.
+  destruct f as [| | | | | |m]; try discriminate. injection Hc as <-.
+  rewrite get_path_keep_override by exact K2. rewrite (get_path_set_other K1).
+  destruct (comp_pre_dict m) as [m' ->]. reflexivity.
+Qed.
+
+Lemma stored_option d p c sk c' f k pi :
+  is_import c = false -> comp_stage_key c = Some sk ->
+  store_comp_raw d p c = Some c' ->
+  fold_override (Some (JDict [])) (store_layers d p sk c) = Some f ->
+  opt_path k pi ->
   get_path (k :: pi) c' = get_path (k :: pi) f.
 Proof.
-  intros Hi Hs Hc Hf K1 K2. unfold store_comp_raw in Hc. rewrite Hi, Hs, Hf in Hc.
-  destruct f as [| | | | | |m]; try discriminate. injection Hc as <-.
-  rewrite get_path_keep_override by exact K2. apply get_path_set_other. exact K1.
+  intros Hi Hs Hc Hf (K1 & K2 & K3). rewrite (stored_path d p c sk c' f k pi Hi Hs Hc Hf K1 K2).
+  apply get_path_comp_pre. exact K3.
 Qed.
 
 Lemma first_some_all_none {A B} (f : A -> option B) l : first_some f l = None -> Forall (fun x => f x = None) l.
@@ -251,7 +269,7 @@ Proof.
   rewrite <- Pf in Pr.
   (* the stored component at the path *)
   assert (Gc : get_path pth (comp_layer c') = get_path pth f).
-  { unfold pth. rewrite get_path_comp_layer by (repeat split; assumption). eapply stored_option; eauto. }
+  { unfold pth. rewrite get_path_comp_layer by (repeat split; assumption). eapply stored_option; eauto. repeat split; assumption. }
   destruct (val_nodict_eq pth _ _ Gc) as [Vc Nc].
   (* the merged blueprints at the path *)
   unfold store_layers in Nl.
@@ -377,7 +395,7 @@ Lemma stored_vars_ok_holds d p q c c' :
   q = DEF \/ q = p ->
   stored_vars_ok p q c c'.
 Proof.
-  intros Hi Hc Ho Hq. unfold store_comp_raw in Hc. rewrite Hi in Hc.
+  intros Hi Hc Ho Hq. unfold store_comp_raw, store_comp_with in Hc. rewrite Hi in Hc.
   destruct (comp_stage_key c) as [sk|]; [|discriminate].
   destruct (fold_override (Some (JDict [])) (store_layers d p sk c)) as [[| | | | | |m]|]; try discriminate.
   injection Hc as <-. split.
